@@ -4,7 +4,7 @@ package main
 //   int read <hex> | int write <v> | bool read <hex> | bool write y|n
 //   float read <hex>        -> ok <16 hex digits of math.Float64bits of the value read> | err
 //   float write <16 hex>    -> hex of FIXFloat(math.Float64frombits(bits)).Write()   (finite values only)
-//   ts read <hex> | ts write <prec> y mo d h mi s ns | str read <hex> | dec read/write, udec write
+//   ts read <hex> | ts write <prec> y mo d h mi s ns | tsz write <offset|local> <prec> y mo d h mi s ns (same UTC instant, other Location) | str read <hex> | dec read/write, udec write
 import (
 	"fmt"
 	"math"
@@ -100,6 +100,15 @@ func (valImpl) exec(op string) string {
 				return "err"
 			}
 			return "ok " + fmtTs(f.Time, f.Precision)
+		case w[0] == "tsz" && w[1] == "write":
+			// the same instant held in another location (fixed offset w[2] seconds, or the process's Local): Write converts to UTC
+			t := time.Date(atoiMust(w[4]), time.Month(atoiMust(w[5])), atoiMust(w[6]), atoiMust(w[7]), atoiMust(w[8]), atoiMust(w[9]), atoiMust(w[10]), time.UTC)
+			if w[2] == "local" {
+				t = t.In(time.Local)
+			} else {
+				t = t.In(time.FixedZone("Z", atoiMust(w[2])))
+			}
+			return hx(quickfix.FIXUTCTimestamp{Time: t, Precision: precNames[w[3]]}.Write())
 		case w[0] == "ts" && w[1] == "write":
 			t := time.Date(atoiMust(w[3]), time.Month(atoiMust(w[4])), atoiMust(w[5]), atoiMust(w[6]), atoiMust(w[7]), atoiMust(w[8]), atoiMust(w[9]), time.UTC)
 			return hx(quickfix.FIXUTCTimestamp{Time: t, Precision: precNames[w[2]]}.Write())
@@ -227,7 +236,13 @@ func genVal(r *rng, tier string, idx int, o *out, do func(string) string) string
 		case c == 10:
 			p := r.pick([]string{"s", "ms", "us", "ns"})
 			y, mo, d, h, mi, s, ns := genCivil(r)
-			do(fmt.Sprintf("ts write %s %d %d %d %d %d %d %d", p, y, mo, d, h, mi, s, ns))
+			if r.chance(1, 3) && y > 1 && y < 9998 {
+				z := r.pick([]string{"local", "3600", "-18000", "19800", "-34200", "50400", "-43200", "1"})
+				do(fmt.Sprintf("tsz write %s %s %d %d %d %d %d %d %d", z, p, y, mo, d, h, mi, s, ns))
+				o.kind("ts.write.zoned")
+			} else {
+				do(fmt.Sprintf("ts write %s %d %d %d %d %d %d %d", p, y, mo, d, h, mi, s, ns))
+			}
 			o.kind("ts.write")
 			o.nontrivial(fmt.Sprintf("ts.write:%d%d%d%d", y, mo, d, ns))
 		default:
